@@ -109,11 +109,11 @@ func c04Case(c *mon.Ctx, r *mon.Rand) {
 			case "plain":
 				prec = mon.NewPlainRec(true)
 				opts.Reporter = prec
-				root, _ = tally.VerifNewRootScope(opts, 0, uint(r.Range(1, 5)))
+				root, _ = vNewRoot(opts, 0, uint(r.Range(0, 5)))
 			case "cached":
 				crec = mon.NewCachedRec(true)
 				opts.CachedReporter = crec
-				root, _ = tally.VerifNewRootScope(opts, 0, uint(r.Range(1, 5)))
+				root, _ = vNewRoot(opts, 0, uint(r.Range(0, 5)))
 			case "test":
 				if rc.San != nil || (rc.Sep != "" && rc.Sep != ".") {
 					root = nil // NewTestScope has neither option
